@@ -17,13 +17,13 @@ RULE = ("1-8 recording systems (mixed priorities/windows); completion point = (s
         "removal, rejected n, complete() again}; non-trivial = completion from outside, or from a system that is "
         "neither first nor last with >=1 due system behind it, followed by >=3 further requests; distinct = "
         "(queue length, completer position, due systems behind, inside multi-step?, tail op kinds)"
-        "; also: completion before the first step, a completer that raises right after complete(), systems bound to another (running) model, falsy systems, ambient logging state (custom logger without a level, raised level, logging.disable), completion by a member of a private SystemManager of the same model")
+        "; also: completion before the first step, a completer that raises right after complete(), systems bound to another (running) model, falsy systems, ambient logging state (custom logger without a level, raised level, logging.disable), completion by a member of a private SystemManager of the same model, further requests issued by the completing system itself")
 COMPONENTS = {"real": ["ECAgent.Core.Model.complete/is_running/__bool__/execute", "ECAgent.Core.SystemManager.execute_systems",
                        "add_system/remove_system after completion"],
               "stub": ["System.execute bodies are harness recorders; the completer calls model.complete() when scripted"]}
 PROBES = ["completer_first", "completer_middle", "completer_last", "complete_outside", "complete_at_t0",
           "multi_step_spans_completion", "throw_error_raised", "add_after_complete", "remove_after_complete",
-          "due_system_skipped", "completer_raises_after_complete", "completed_by_member_of_a_private_system_manager", "system_bound_to_another_model", "falsy_systems", "systems_returning_values_from_execute",
+          "due_system_skipped", "completer_raises_after_complete", "completed_by_member_of_a_private_system_manager", "request_from_inside_the_completing_timestep", "system_bound_to_another_model", "falsy_systems", "systems_returning_values_from_execute",
           "logging_custom_logger", "logging_level_warning", "logging_disable_info", "logging_disable_critical", "logging_level_debug"]
 TECHNIQUE = "deterministic simulation: complete() injected as a cancellation at every schedule point, then a seeded request tail with a 'nothing moves' oracle"
 LEVEL_TEXT = ("Seeded search over the completion point (queue position x timestep, inside multi-step requests, from outside) "
@@ -86,6 +86,10 @@ def generate(rng, tier):
         # of THEM completes the model - the rest of the group, and the rest of the timestep, must be skipped all the same
         nm = rng.randint(2, 4)
         comp["group"] = {"members": nm, "completer": rng.randrange(nm)}
+    if comp["by"] is not None and rng.random() < 0.15:
+        # the completing system (or a helper it calls) goes on to ask for more steps while its timestep is still on the stack:
+        # these are "later requests" like any other
+        comp["then_request"] = [rng.choice(["throw", "throw", "plain", "execute"]) for _ in range(rng.randint(1, 3))]
     if comp["by"] is not None and rng.random() < 0.2:
         comp["then_raise"] = rng.choice(["OSError", "ValueError", "RuntimeError", "KeyError"])
     # ambient logging state: the statement's reactions must not depend on whether anybody listens to the model's logger
@@ -119,6 +123,19 @@ class World:
                 self.model.complete()
             self.completed_at_seq = len(self.log)
             self.ctx.event("complete-inside", s.id, t)
+            for req in self.comp.get("then_request") or ():
+                self.ctx.probe("request_from_inside_the_completing_timestep")
+                clock = self.model.systems.timestep
+                if req == "throw":
+                    self.ctx.expect_raises("throw_error-inside-step", ModelCompleteError, self.model.systems.execute_systems,
+                                           throw_error=True)
+                elif req == "plain":
+                    self.ctx.expect_ok("execute_systems-inside-step", self.model.systems.execute_systems)
+                else:
+                    self.ctx.expect_ok("execute-inside-step", self.model.execute)
+                self.ctx.check(len(self.log) == self.completed_at_seq and self.model.systems.timestep == clock,
+                               "ran-after-complete", f"t={t}: a request issued by the completing system itself moved the model: "
+                                                     f"log {self.log[self.completed_at_seq:]}, clock {clock} -> {self.model.systems.timestep}")
             if self.comp.get("then_raise"):
                 # the system completes the model and then fails (e.g. while writing its final report)
                 self.ctx.probe("completer_raises_after_complete")
